@@ -309,3 +309,6 @@ func SameRef(a, b any) bool { panic("zzvp: symbolic only") }
 
 // FreezeGlobals makes the repository's package-level variables read-only (symbolic only).
 func FreezeGlobals() {}
+
+// EndPath ends the current path normally (used by the os.Exit model).
+func EndPath() { panic("zzvp: symbolic only") }
